@@ -7294,12 +7294,33 @@ fn eval_block(env: &mut Env, expr_value_is_used: bool, block: &Block) {
     }
 }
 
+/// Is this a pending `match`, `if` or `try` whose block is currently
+/// being evaluated? Its EvaluatedSubexpressions step pops that
+/// block, so `break` and `continue` must pop it when they discard
+/// the step.
+fn exits_block_when_done(expr_state: &ExpressionState, expr: &Expression) -> bool {
+    expr_state.done_subexpressions()
+        && matches!(
+            expr.expr_,
+            Expression_::Match(_, _) | Expression_::If(_, _, _) | Expression_::Try(_, _, _)
+        )
+}
+
 fn eval_break(env: &mut Env, expr_value_is_used: bool) {
     // Pop all the currently evaluating expressions until we are no
     // longer inside the innermost loop.
     while let Some((expr_state, expr)) = env.current_frame_mut().exprs_to_eval.pop() {
         match &expr.expr_ {
             Expression_::While(_, _) => {
+                // We're leaving the loop body early, so its bindings
+                // block won't be popped by the DoneRunBlock step.
+                if matches!(
+                    expr_state,
+                    ExpressionState::PartiallyEvaluated(BlockState::DoneRunBlock)
+                ) {
+                    env.current_frame_mut().bindings.pop_block();
+                }
+
                 env.current_frame_mut()
                     .exprs_to_eval
                     .push((ExpressionState::EvaluatedSubexpressions, Rc::clone(&expr)));
@@ -7325,10 +7346,7 @@ fn eval_break(env: &mut Env, expr_value_is_used: bool) {
                 // We're exiting a block that wasn't part of a loop
                 // (i.e. a match case or an if/else block), so we
                 // should pop the bindings block here too.
-                if matches!(
-                    expr_state,
-                    ExpressionState::PartiallyEvaluated(BlockState::DoneRunBlock)
-                ) {
+                if exits_block_when_done(&expr_state, &expr) {
                     env.current_frame_mut().bindings.pop_block();
                 }
 
@@ -7357,6 +7375,12 @@ fn eval_continue(env: &mut Env) {
 
             env.push_expr_to_eval(expr_state, expr);
             break;
+        }
+
+        // We're skipping the rest of a match case, if/else or try
+        // block, so its bindings block won't be popped later.
+        if exits_block_when_done(&expr_state, &expr) {
+            env.current_frame_mut().bindings.pop_block();
         }
     }
 }
